@@ -307,8 +307,16 @@ pub fn ans_state(case: &Value, mode: &str, rep: &mut Report) {
                 let sh1 = (w as usize * b1.len()) as u32; let sh0 = (w as usize * b0.len()) as u32;
                 if sh1 < 64 {
                     let v1 = s1 << sh1; let v0 = s0 << sh0;
-                    if !(v1 * (p as u128) < (v0 + ((p as u128) << sh1)) << prec) { bad(rep, format!("encode {:?}: coder value grows by more than 2^P/p (1 + 2^-(S-W-P)): {:?} -> {:?}", &r[..3], (b0.clone(), s0), (b1, s1))); }
-                    // rounding term: whenever words are held, state >= p * 2^(S-W-P) before the multiplication
+                    if !(v1 * (p as u128) < (v0 + ((p as u128) << sh1)) << prec) { bad(rep, format!("encode {:?}: coder value grows by more than 2^P/p (1 + 2^-(S-W-P)): {:?} -> {:?}", &r[..3], (b0.clone(), s0), (b1.clone(), s1))); }
+                }
+                // rounding term (StepBound of Ans.tla): the state that is divided by p is at least p * 2^(S-W-P) whenever the
+                // coder holds words afterwards, so that the relative rounding loss is at most 2^-(S-W-P) per symbol
+                if !b1.is_empty() && (s as usize) >= (w as usize) + prec {
+                    let divided = if b1.len() > b0.len() { s0 >> w } else { s0 };
+                    rep.checks += 1;
+                    if divided < (p as u128) << (s as usize - w as usize - prec) {
+                        bad(rep, format!("encode {:?} on {:?}: the state that is divided by p is {} < p * 2^(S-W-P) = {}: the rounding loss per symbol exceeds log2(1 + 2^-(S-W-P))", &r[..3], (b0.clone(), s0), divided, (p as u128) << (s as usize - w as usize - prec)));
+                    }
                 }
             }
         }
